@@ -260,6 +260,45 @@ def bnd_geo(st, idx):
     return {st.fkey(int(f)) for f in np.asarray(idx).ravel()}
 
 
+def is_oriented(arr):
+    """An OrientedBoundary that actually carries flags (a view that lost them counts as a plain array)."""
+    return type(arr).__name__ == "OrientedBoundary" and getattr(arr, "ori", None) is not None
+
+
+def ori_pairs(st, arr, P=None):
+    """What an oriented tag designates: {(facet key, key of the cell mesh.f2t[ori, f])}.  The cell is None where
+    the flag points at the missing neighbour of a boundary facet.  `P` overrides the node coordinates (images
+    under a map that keeps the connectivity).  None if flags and indices do not pair up."""
+    idx = np.asarray(arr).ravel()
+    ori = np.asarray(arr.ori).ravel()
+    if idx.size != ori.size or (ori.size and (ori.min() < 0 or ori.max() > 1)):
+        return None
+    P = st.P if P is None else P
+    fc, f2t, t = np.asarray(st.mesh.facets), np.asarray(st.mesh.f2t), st.t
+    out = set()
+    for f, o in zip(idx.tolist(), ori.tolist()):
+        c = int(f2t[o, f])
+        out.add((frozenset(P[v] for v in fc[:, f]), None if c < 0 else frozenset(P[v] for v in t[:, c])))
+    return out
+
+
+def oriented_like(st_old, arr, st_new, facet_of):
+    """Rebuild the oriented tag `arr` of st_old on st_new (same cells in the same order, other vertex/facet
+    numbers): entry (f, flag) becomes the facet of the SAME owner cell with the same vertices (`facet_of(owner,
+    f)` -> facet number in st_new) and the flag under which st_new lists that cell."""
+    from skfem.generic_utils import OrientedBoundary
+    f2t_o, f2t_n = np.asarray(st_old.mesh.f2t), np.asarray(st_new.mesh.f2t)
+    idx, ori = [], []
+    for f, o in zip(np.asarray(arr).ravel().tolist(), np.asarray(arr.ori).ravel().tolist()):
+        owner = int(f2t_o[o, f])
+        if owner < 0:
+            continue
+        f2 = facet_of(owner, f)
+        idx.append(f2)
+        ori.append(0 if int(f2t_n[0, f2]) == owner else 1)
+    return OrientedBoundary(np.array(idx, dtype=np.int64), np.array(ori, dtype=np.int64))
+
+
 def random_tags(rng, st, oriented=True):
     """Index-array tags: subdomains (int32 sorted / int64 unsorted) and boundaries (any facets incl. interior
     ones, boundary-only, an OrientedBoundary around a subdomain)."""
